@@ -105,6 +105,38 @@ def isPubkeyAllowed (allowed denied : List (List Nat)) (e : Ev) : Verdict :=
   else if !denied.isEmpty && denied.contains e.pubkey then .reject
   else .ok
 
+/-! ### `verification.is_nip05_verified` (the NIP-05 admission policy; `docs/dynamic_lists.md`: it must come *before*
+    `is_pubkey_allowed`, "because this will temporarily add the pubkey to the allow list") -/
+
+inductive Nip05Status where
+  | enabled
+  | passive
+  | off          -- "disabled", unset, or any other text: the validator lets everything through
+  deriving Repr, DecidableEq
+
+/-- `"nip05" in event.content` — a substring test on the text of the metadata, not a JSON lookup -/
+def mentionsNip05 (content : List Nat) : Bool :=
+  let needle : List Nat := [110, 105, 112, 48, 53]
+  let rec go : List Nat → Bool
+    | [] => false
+    | c :: rest => ((c :: rest).take 5 == needle) || go rest
+  go content
+
+/-- verdict and the process-global allow set afterwards.  `pubkeyHex = none`: `bytes.fromhex(event.pubkey)` raises -/
+def isNip05Verified (st : Nip05Status) (kind : Int) (content : List Nat) (pubkeyHex : Option (List Nat))
+    (allowed : List (List Nat)) : Verdict × List (List Nat) :=
+  match st with
+  | .off => (.ok, allowed)
+  | _ =>
+    if kind == 10002 then (.ok, allowed)            -- NIP-65 relay lists are always let through
+    else if kind == 0 then
+      if !mentionsNip05 content then ((if st == .enabled then .reject else .ok), allowed)
+      else if allowed.isEmpty then (.ok, allowed)   -- `if ALLOWED_PUBKEYS:` — an unenforced list stays unenforced
+      else match pubkeyHex with
+        | none => (.raises, allowed)
+        | some pk => (.ok, if allowed.contains pk then allowed else pk :: allowed)
+    else (.ok, allowed)                              -- other kinds: the allow list decides (is_pubkey_allowed, next in line)
+
 /-- `get_validator`: run the configured functions in order; the first failure decides -/
 def pipeline : List Verdict → Verdict
   | [] => .ok
